@@ -80,7 +80,7 @@ def phaseName : AsyncTask.Phase → String
 /-- `atask <delayed> <phase>`: bring one timeout Task of AsyncTask.lean into the given phase, call cancel(), let the
     loop run it to the end; reply = how often the body was entered and how the Task ended (compared with the real
     asyncio.Task the harness cancelled in that phase) -/
-def atask (delayed : Bool) (phase : String) (raises : Bool := false) : Option String :=
+def atask (delayed : Bool) (phase : String) (ending : AsyncTask.Ev := .bodyEnd) : Option String :=
   let pre : Option (List AsyncTask.Ev) :=
     match phase, delayed with
     | "created", _ => some []
@@ -90,14 +90,15 @@ def atask (delayed : Bool) (phase : String) (raises : Bool := false) : Option St
     | "running", false => some [.step]
     | _, _ => none
   pre.map fun p =>
-    let t := AsyncTask.run { delayed := delayed } (p ++ [.cancel, .step, .step, if raises then .bodyRaise else .bodyEnd, .step])
+    let t := AsyncTask.run { delayed := delayed } (p ++ [.cancel, .step, .step, ending, .step])
     s!"body={t.bodyRuns} end={phaseName t.phase}"
 
 def stepLine (s : St) (toks : List String) : St × String :=
   match toks with
   | ["reset"] => (init, "reset")
   | ["atask", d, ph] => (s, (atask (d != "0") ph).getD "bad-op")
-  | ["atask", d, ph, "raise"] => (s, (atask (d != "0") ph true).getD "bad-op")
+  | ["atask", d, ph, "raise"] => (s, (atask (d != "0") ph .bodyRaise).getD "bad-op")
+  | ["atask", d, ph, "raisec"] => (s, (atask (d != "0") ph .bodyCancelled).getD "bad-op")
   | "~" :: rest =>
     match parseEv rest with
     | none => (s, "bad-op")
